@@ -1468,3 +1468,72 @@ func init() {
 		}
 	})
 }
+
+func init() {
+	reg := registry["C10"]
+	reg.Meta.Rules["C10.7"] = "a modification made through a reopened handle reaches the file completely: every success return of a function that loads heap and name index and changes them is preceded by the write-back of both (shared with C02.2)"
+	reg.Rules = append(reg.Rules, func(c *Ctx, r *Result) { denseWriteBackRule(c, r, "C10.7") })
+}
+
+func init() {
+	reg := registry["C10"]
+	reg.Meta.Rules["C10.8"] = "what WriteAt writes in place was located by LoadFromFile: every address field of the writable B-tree / fractal heap that WriteAt uses as a write address is stored on every path to a successful return of LoadFromFile (a tree that happens to be empty still has its leaf at the recorded address; address 0 is the superblock)"
+	reg.Rules = append(reg.Rules, func(c *Ctx, r *Result) {
+		n := 0
+		for _, tn := range []string{"structures.WritableBTreeV2", "structures.WritableFractalHeap"} {
+			load, wat := c.FnOpt(tn+".LoadFromFile"), c.FnOpt(tn+".WriteAt")
+			if load == nil || wat == nil {
+				continue
+			}
+			// address fields WriteAt writes at: arguments of WriteAtAddress / WriteAt calls (transitively one level) read from the receiver
+			used := map[string]bool{}
+			var scan func(f *ssa.Function, d int)
+			scan = func(f *ssa.Function, d int) {
+				for _, site := range callsIn(f) {
+					if addr, ok := c.fileWriteAddr(site); ok {
+						for k := range fieldsReadBy(addr) {
+							if strings.HasPrefix(k, tn+".") {
+								used[k] = true
+							}
+						}
+					}
+					if g := site.Common().StaticCallee(); g != nil && d < 1 && g.Blocks != nil && strings.HasPrefix(c.Name(g), tn+".") {
+						// address handed to a helper method
+						for _, a := range site.Common().Args {
+							if b, isB := a.Type().Underlying().(*types.Basic); isB && b.Kind() == types.Uint64 {
+								for k := range fieldsReadBy(a) {
+									if strings.HasPrefix(k, tn+".") {
+										used[k] = true
+									}
+								}
+							}
+						}
+					}
+				}
+			}
+			scan(wat, 0)
+			var keys []string
+			for k := range used {
+				keys = append(keys, k)
+			}
+			sort.Strings(keys)
+			for _, k := range keys {
+				for _, ret := range successReturns(load) {
+					n++
+					ok := mustPrecede(ret, func(in ssa.Instruction) bool {
+						st, isSt := in.(*ssa.Store)
+						if !isSt {
+							return false
+						}
+						f, base := fieldOfAddr(st.Addr)
+						return f != nil && fieldKey(base.Type(), f) == k
+					})
+					r.Check(ok, "C10.8", c.Name(load)+"#"+k+"#recorded-on-every-success-path", c.InstrPos(ret), "WriteAt writes at "+lastSeg(k)+"; LoadFromFile must have recorded it on every path to this successful return")
+				}
+			}
+		}
+		if n == 0 {
+			r.Undec("C10.8", "structures#loaded-addresses", "", "no receiver field used as an in-place write address found")
+		}
+	})
+}
